@@ -498,7 +498,8 @@ FAILING_SNIPPETS = [
     ["typedef int T;", "int a[] = { [", "#pragma pack"],
 ]
 
-ILLEGAL_FRAGMENTS = ["`", "@", "$", "'", '"', "/*", "//", "#define X", "#include <a.h>", '#line "f.h"',
+ILLEGAL_FRAGMENTS = ["}", "{", ")", "(", "]", "};", "} ;", '# 7 "inc.h" 1 x', '#line 5 "a.h" 3 q', '# 3 "b.h" x', '# 9 "c.h" 1 2 3 4 5',
+                     "`", "@", "$", "'", '"', "/*", "//", "#define X", "#include <a.h>", '#line "f.h"',
                      "#line x", "\\", "08", "'ab", "0x", "1.2.3", "#line 9999999999999999999999 \"big.h\"",
                      "# 1 2", "#", "#pragma", "#pragma pack(9)", "_Pragma(\"z\")", "#pragma omp x", "\x7f", "\u00e9", "1e", "'\\q'", '"\\q"']
 
